@@ -224,3 +224,144 @@ def replay_generic(payload, in_specs, impl, ref):
     gs = [None if t is None else tuple(t.shape) for _, t in ro[1]]
     es = [None if r is None else tuple(np.asarray(r).shape) for r in oo[1]]
     return dict(reproduced=gs != es, detail=dict(got=gs, expected=es))
+
+
+def check_same(res, cfg, facts, in_specs, impl_a, impl_b, tau_rel=1e-9, what='outputs', max_sat=2, seed=2, timeout_ms=10000,
+               allow_both_raise=True, scale=None):
+    """Two entry points run symbolically on the SAME input atoms must give the same outputs (same structure, shapes, values) for
+    every input.  impl_x(pw, tensors) -> [(name, tensor-or-None-or-marker)]; non-tensor items are compared with ==."""
+    rt = symtorch.real_torch()
+    rng = np.random.default_rng(seed)
+    t0 = time.time()
+    with symtorch.symbolic():
+        spw = symtorch.sym()
+        tens = []; ids = []
+        for nm, s in in_specs:
+            t, i = core.symin(tuple(s), name=nm)
+            tens.append(t); ids.append(i)
+        sa = core.outcome(lambda: impl_a(spw, tens))
+        sb = core.outcome(lambda: impl_b(spw, tens))
+    res.symexec_s += time.time() - t0
+    res.funcs = sorted(set(res.funcs) | T.STATE.funcs_entered)
+    xs = [rng.uniform(-1, 1, size=s) for _, s in in_specs]
+    ra = core.outcome(lambda: impl_a(symtorch.real(), [rt.tensor(x, dtype=rt.float64) for x in xs]))
+    rb = core.outcome(lambda: impl_b(symtorch.real(), [rt.tensor(x, dtype=rt.float64) for x in xs]))
+    for s_, r_ in ((sa, ra), (sb, rb)):
+        if s_[0] == 'unsupported':
+            res.status = 'inconclusive'; res.notes.append('symbolic engine: ' + s_[1]); return None
+        if s_[0] != r_[0] or (s_[0] == 'raise' and s_[1] != r_[1]):
+            res.status = 'error'; res.trace = 'symbolic outcome %r differs from real torch outcome %r' % (s_[:3], r_[:3]); return None
+    if sa[0] == 'raise' or sb[0] == 'raise':
+        if sa[0] == sb[0] and allow_both_raise:
+            res.status = 'skipped'; res.notes.append('both sides raise (%s / %s)' % (sa[1], sb[1])); return None
+        bad = 'first' if sa[0] == 'raise' else 'second'
+        res.status = 'violation'
+        res.violations.append(dict(what='%s: the %s form raises %s (%s), the other returns' % (what, bad, (sa if sa[0] == 'raise' else sb)[1], (sa if sa[0] == 'raise' else sb)[2][:100]),
+                                   facts=facts, replay=dict(kind='raise'), reproduced=True))
+        return None
+    A, Bv = sa[1], sb[1]
+    if len(A) != len(Bv):
+        res.status = 'violation'
+        res.violations.append(dict(what='%s: %d vs %d outputs' % (what, len(A), len(Bv)), facts=facts, replay=dict(kind='shape'), reproduced=len(ra[1]) != len(rb[1])))
+        return None
+    env = P.AtomEnv()
+    for i, x in zip(ids, xs):
+        for a, v in zip(i.reshape(-1), x.reshape(-1)):
+            env[int(a)] = float(v)
+    dev = 0.0
+    gscale = 1.0
+    pairs = []
+    for k, ((na, ta), (nb, tb)) in enumerate(zip(A, Bv)):
+        is_ta = isinstance(ta, T.Tensor); is_tb = isinstance(tb, T.Tensor)
+        if not is_ta or not is_tb:
+            if (ta is None) != (tb is None) or (not is_ta and not is_tb and ta != tb) or (is_ta != is_tb):
+                res.status = 'violation'
+                res.violations.append(dict(what='%s: %s is %r vs %r' % (what, na, type(ta).__name__, type(tb).__name__), facts=facts, replay=dict(kind='shape'), reproduced=True))
+                return None
+            continue
+        if tuple(ta.shape) != tuple(tb.shape):
+            res.status = 'violation'
+            res.violations.append(dict(what='%s: %s has shape %s vs %s' % (what, na, tuple(ta.shape), tuple(tb.shape)), facts=facts, replay=dict(kind='shape'),
+                                       reproduced=tuple(ra[1][k][1].shape) != tuple(rb[1][k][1].shape)))
+            return None
+        for s_t, r_t in ((ta, ra[1][k][1]), (tb, rb[1][k][1])):
+            if s_t.a.dtype != object:
+                continue
+            sv = np.array([p.evalf(env) for p in s_t.a.reshape(-1)])
+            rv = r_t.detach().numpy().reshape(-1)
+            if sv.shape != rv.shape:
+                res.status = 'error'; res.trace = 'shape mismatch symbolic vs real for %s' % na; return None
+            if sv.size:
+                dev = max(dev, float(np.abs(sv - rv).max())); gscale = max(gscale, float(np.abs(rv).max()))
+        pairs.append((na, ta, tb, k))
+    res.validated = dev
+    if dev > 1e-9 * gscale:
+        res.status = 'error'; res.trace = 'symbolic values deviate from real torch by %g' % dev; return None
+    sc = scale or 1.0
+    tau = Fraction(tau_rel).limit_denominator(10 ** 15) * Fraction(sc)
+    st = res.stats or smt.Stats()
+    solver = smt.Solver(stats=st, timeout_ms=timeout_ms)
+    sats = []
+    first = None
+    for na, ta, tb, k in pairs:
+        if ta.a.dtype != object:
+            if not np.array_equal(ta.a, tb.a):
+                res.status = 'violation'
+                res.violations.append(dict(what='%s: integer output %s differs' % (what, na), facts=facts, replay=dict(kind='shape'), reproduced=True)); return None
+            continue
+        for e, (p, q) in enumerate(zip(ta.a.reshape(-1), tb.a.reshape(-1))):
+            d = p - q
+            if first is None and (p.t or q.t):
+                first = (d, p)
+            if not d.is_zero():
+                res.nontrivial = True
+            v, model = solver.decide_amplified(d, tau, label='%s[%d]' % (na, e))
+            if v == 'sat':
+                sats.append((na, k, e, model))
+            elif v != 'unsat':
+                res.status = 'inconclusive'; res.notes.append('solver answered %s on %s[%d]' % (v, na, e))
+            if len(sats) >= max_sat:
+                break
+        if len(sats) >= max_sat:
+            break
+    res.stats = st
+    if first is not None:
+        d, p = first
+        at = sorted(p.atoms())
+        if at:
+            dd = d + Poly.var(at[0]) * Fraction(1, 10 ** 6) * max(1, int(sc))
+            cs = smt.Solver(stats=smt.Stats()); cs.keep_sample = False
+            v, m = cs.decide(dd, tau)
+            if v != 'sat':
+                res.status = 'error'; res.trace = 'canary query was not refuted (%s)' % v; return None
+    for na, k, e, model in sats:
+        xv = [core.model_array(model, i) for i in ids]
+        r1 = impl_a(symtorch.real(), [rt.tensor(x, dtype=rt.float64) for x in xv])
+        r2 = impl_b(symtorch.real(), [rt.tensor(x, dtype=rt.float64) for x in xv])
+        diff = abs(float(r1[k][1].reshape(-1)[e]) - float(r2[k][1].reshape(-1)[e]))
+        res.violations.append(dict(what='%s: %s[%d] differs between the two forms by %.3g' % (what, na, e, diff), facts=facts,
+                                   replay=dict(kind='same', xs=[x.tolist() for x in xv], out=k, e=int(e), tau=float(tau)), reproduced=diff > float(tau) / 2))
+    if res.violations:
+        res.status = 'violation'
+    return dict(A=A, B=Bv, ids=ids, tau=tau, solver=solver)
+
+
+def replay_same(payload, in_specs, impl_a, impl_b):
+    rp = payload['replay']
+    rt = symtorch.real_torch()
+    if rp['kind'] == 'same':
+        xv = [np.array(x) for x in rp['xs']]
+        r1 = impl_a(symtorch.real(), [rt.tensor(x, dtype=rt.float64) for x in xv])
+        r2 = impl_b(symtorch.real(), [rt.tensor(x, dtype=rt.float64) for x in xv])
+        diff = abs(float(r1[rp['out']][1].reshape(-1)[rp['e']]) - float(r2[rp['out']][1].reshape(-1)[rp['e']]))
+        return dict(reproduced=diff > rp['tau'] / 2, detail=diff)
+    xs = [np.zeros(s) for _, s in in_specs]
+    a = core.outcome(lambda: impl_a(symtorch.real(), [rt.tensor(x, dtype=rt.float64) for x in xs]))
+    b = core.outcome(lambda: impl_b(symtorch.real(), [rt.tensor(x, dtype=rt.float64) for x in xs]))
+    if rp['kind'] == 'raise':
+        return dict(reproduced=(a[0] == 'raise') != (b[0] == 'raise'), detail=[a[:3], b[:3]])
+    if a[0] != 'ok' or b[0] != 'ok':
+        return dict(reproduced=True, detail=[a[:3], b[:3]])
+    sa = [tuple(t.shape) if hasattr(t, 'shape') else t for _, t in a[1]]
+    sb = [tuple(t.shape) if hasattr(t, 'shape') else t for _, t in b[1]]
+    return dict(reproduced=sa != sb, detail=dict(a=sa, b=sb))
